@@ -56,6 +56,12 @@ class ExcHierarchy:
                 b = d.bases[0] if d.bases else None
                 self.parent[name] = ast.unparse(b) if b is not None else "object"
 
+    def _norm(self, name):
+        short = name.split(".")[-1]
+        if short in self.parent:
+            return short
+        return name
+
     def ancestors(self, name):
         out = [name]
         seen = set()
@@ -69,6 +75,8 @@ class ExcHierarchy:
         """True/False/None(unknown) whether `except handler` catches exception class `exc`."""
         if handler is None or handler == "BaseException":
             return True
+        exc = self._norm(exc.split("#")[0])
+        handler = self._norm(handler)
         if exc == "*":
             return None
         if exc not in self.parent:
@@ -85,12 +93,13 @@ def handler_names(h):
 
 
 class CFG:
-    def __init__(self, fn, raises=None, hier=None):
+    def __init__(self, fn, raises=None, hier=None, handler_resolver=None):
         """raises(astnode) -> set of exception class names the evaluation of that
         statement/expression may raise ('*' = unknown class)."""
         self.fn = fn
         self.raises = raises or (lambda n: set())
         self.hier = hier
+        self.hres = handler_resolver or getattr(raises, "handler_resolver", None)
         self.nodes = {}
         self.succ = collections.defaultdict(list)
         self.pred = collections.defaultdict(list)
@@ -100,7 +109,7 @@ class CFG:
         self.rexit = self.new("rexit", fn)
         self.escapes = set()
         self.raise_sites = collections.defaultdict(set)   # node id -> exc names
-        top = dict(loop=None, exc=[{"node": self.rexit, "raised": self.escapes}], fin=[])
+        top = dict(loop=None, exc=[{"kind": "top", "node": self.rexit, "raised": self.escapes}], fin=[])
         ends = self.block(fn.body, [self.entry], top)
         self.link(ends, self.exit)
 
@@ -125,10 +134,41 @@ class CFG:
     def add_exc(self, n, astnode, ctx, explicit=None):
         r = set(explicit) if explicit is not None else (self.raises(astnode) if astnode is not None else set())
         if r:
-            tgt = ctx["exc"][-1]
-            self.edge(n, tgt["node"], "exc")
-            tgt["raised"] |= r
             self.raise_sites[n] |= r
+            self.deliver(n, r, ctx["exc"], len(ctx["exc"]) - 1)
+
+    def deliver(self, src, names, frames, i, label="exc"):
+        """Route each exception class raised at `src` to the innermost frame that handles it.
+        label 'exc' = the statement at src did not complete; 'excp' = an exception propagates after src completed
+        (end of a finally body / with-exit)."""
+        fr = frames[i]
+        if fr["kind"] == "top":
+            self.edge(src, fr["node"], label)
+            fr["raised"] |= names
+            return
+        if fr["kind"] == "fin":
+            self.edge(src, fr["node"], label)
+            fr["raised"] |= names
+            return
+        # try frame with handlers
+        rest = set()
+        for e in names:
+            caught = False
+            for h in fr["handlers"]:
+                res = [self.hier.catches(hn, e) if self.hier else (True if hn in (None, "BaseException") else None)
+                       for hn in h["names"]]
+                if any(r is True for r in res):
+                    self.edge(src, h["node"], label)
+                    h["caught"].add(e)
+                    caught = True
+                    break
+                if any(r is None for r in res):
+                    self.edge(src, h["node"], label)
+                    h["caught"].add(e)
+            if not caught:
+                rest.add(e)
+        if rest:
+            self.deliver(src, rest, frames, i - 1, label)
 
     def block(self, stmts, preds, ctx):
         for s in stmts:
@@ -223,7 +263,7 @@ class CFG:
         for it in s.items:
             self.add_exc(ent, it.context_expr, ctx)
         finrec = {"returns": [], "breaks": [], "conts": []}
-        fin_exc = {"node": self.new("with_exit", s, "exc"), "raised": set()}
+        fin_exc = {"kind": "fin", "node": self.new("with_exit", s, "exc"), "raised": set()}
         c_body = dict(ctx, exc=ctx["exc"] + [fin_exc], fin=ctx["fin"] + [finrec])
         body_end = self.block(s.body, [ent], c_body)
         out = []
@@ -232,9 +272,7 @@ class CFG:
             self.link(body_end, x)
             out = [x]
         if fin_exc["raised"]:
-            outer = ctx["exc"][-1]
-            self.edge(fin_exc["node"], outer["node"], "exc")
-            outer["raised"] |= fin_exc["raised"]
+            self.deliver(fin_exc["node"], fin_exc["raised"], ctx["exc"], len(ctx["exc"]) - 1, "excp")
         if finrec["returns"]:
             x = self.new("with_exit", s, "ret")
             self.link(finrec["returns"], x)
@@ -255,46 +293,40 @@ class CFG:
                 self.edge(x, lp["cont"])
         return out
 
+    def _hnames(self, h):
+        names = handler_names(h)
+        if self.hres is None:
+            return names
+        out = []
+        for n in names:
+            r = self.hres(n) if n is not None else None
+            out += (r if r else [n])
+        return out
+
     def _try(self, s, preds, ctx):
-        disp = {"node": self.new("dispatch", s), "raised": set()}
         has_fin = bool(s.finalbody)
         finrec = {"returns": [], "breaks": [], "conts": []} if has_fin else None
-        fin_exc = {"node": self.new("join", s, "finally_exc"), "raised": set()} if has_fin else None
+        fin_exc = {"kind": "fin", "node": self.new("join", s, "finally_exc"), "raised": set()} if has_fin else None
         fin_stack = ctx["fin"] + ([finrec] if has_fin else [])
         outer_exc = ctx["exc"] + ([fin_exc] if has_fin else [])
-        c_body = dict(ctx, exc=outer_exc + [disp], fin=fin_stack)
+        handlers = [{"h": h, "names": self._hnames(h), "node": self.new("handler", h), "caught": set()} for h in s.handlers]
+        frame = {"kind": "try", "handlers": handlers, "node": None}
+        c_body = dict(ctx, exc=outer_exc + ([frame] if handlers else []), fin=fin_stack)
         body_end = self.block(s.body, preds, c_body)
         c_rest = dict(ctx, exc=outer_exc, fin=fin_stack)
         outs = self.block(s.orelse, body_end, c_rest) if s.orelse else list(body_end)
-        remaining = set(disp["raised"])
-        for h in s.handlers:
-            names = handler_names(h)
-            caught_def, caught_may = set(), set()
-            for e in remaining:
-                res = [self.hier.catches(hn, e) if self.hier else (True if hn in (None, "BaseException") else None)
-                       for hn in names]
-                if any(r is True for r in res):
-                    caught_def.add(e)
-                elif any(r is None for r in res):
-                    caught_may.add(e)
-            if caught_def or caught_may:
-                hn = self.new("handler", h, sorted(caught_def | caught_may))
-                self.edge(disp["node"], hn, "exc")
-                c_h = dict(c_rest, reraise=caught_def | caught_may)
-                outs += self.block(h.body, [hn], c_h)
-            remaining -= caught_def
-        if remaining:
-            tgt = outer_exc[-1]
-            self.edge(disp["node"], tgt["node"], "exc")
-            tgt["raised"] |= remaining
+        for h in handlers:
+            if h["caught"]:
+                self.nodes[h["node"]].extra = sorted(h["caught"])
+                c_h = dict(c_rest, reraise=set(h["caught"]))
+                outs += self.block(h["h"].body, [h["node"]], c_h)
         if has_fin:
             f_norm = self.block(s.finalbody, outs, ctx) if outs else []
             if fin_exc["raised"] or self.pred.get(fin_exc["node"]):
                 f_exc = self.block(s.finalbody, [fin_exc["node"]], ctx)
-                outer = ctx["exc"][-1]
                 for e in f_exc:
-                    self.link([e], outer["node"], "exc")
-                outer["raised"] |= fin_exc["raised"]
+                    e0 = e[0] if isinstance(e, tuple) else e
+                    self.deliver(e0, fin_exc["raised"] or {"*"}, ctx["exc"], len(ctx["exc"]) - 1, "excp")
             if finrec["returns"]:
                 f_ret = self.block(s.finalbody, finrec["returns"], ctx)
                 for e in f_ret:
